@@ -838,16 +838,61 @@ def rule_B5(run, prog):
     run.obligation(rid, "Manager.transform_to_current_basis", ok, key="transform-retag-register",
                    message="lazy transformation must transform, re-tag with the current basis and "
                            "register the object with it", loc=f.loc())
-    # composition of stacked transformations: the earlier (outer) transformation multiplies from the left
-    comp = [n for n in ast.walk(f.node) if isinstance(n, ast.Assign) and norm(n.targets[0]) == "SS"
-            and isinstance(n.value, ast.Call)]
+    rule_B5_composition(run, prog, rid)
+
+
+def rule_B5_composition(run, prog, rid="C04-B5"):
+    """Stacked transformations are composed outer-first (also used by C14-O: a state requested inside nested
+    contexts reaches the current basis through this product)."""
+    f = prog.func(MGR + "Manager.transform_to_current_basis")
+    # composition of stacked transformations: the earlier (outer) transformation multiplies from the left.
+    # Decided by role, not by the names of the locals: inside the loop over the stack, the accumulated matrix A
+    # (the argument of operator.transform) is updated as A = dot(Z, A) / Z @ A, where Z is (defined as) an element
+    # of self.basis_transformations whose index goes down as the loop variable goes up (top of the stack first).
+    def _is_stack_elem(e, loopvar):
+        if not (isinstance(e, ast.Subscript) and norm(e.value) == "self.basis_transformations"):
+            return False
+        ix = e.slice
+        return isinstance(ix, ast.BinOp) and isinstance(ix.op, ast.Sub) and \
+            loopvar in {n.id for n in ast.walk(ix.right) if isinstance(n, ast.Name)} and \
+            loopvar not in {n.id for n in ast.walk(ix.left) if isinstance(n, ast.Name)}
+
+    acc = {norm(c.args[0]) for c in ast.walk(f.node) if isinstance(c, ast.Call) and isinstance(c.func, ast.Attribute)
+           and c.func.attr == "transform" and len(c.args) == 1 and isinstance(c.args[0], ast.Name)}
     ok = False
-    for n in comp:
-        if call_name(n.value) == "dot" and len(n.value.args) == 2 and \
-                [norm(a) for a in n.value.args] == ["ZZ", "SS"]:
-            ok = True
-    zz = [n for n in ast.walk(f.node) if isinstance(n, ast.Assign) and norm(n.targets[0]) == "ZZ"]
-    ok = ok and len(zz) == 1 and norm(zz[0].value) == "self.basis_transformations[sl - k]"
+    bad = False
+    loops = [n for n in ast.walk(f.node) if isinstance(n, ast.For) and isinstance(n.target, ast.Name)]
+    for lp in loops:
+        lv = lp.target.id
+        zdefs = {}
+        for n in ast.walk(lp):
+            if isinstance(n, ast.Assign) and len(n.targets) == 1 and isinstance(n.targets[0], ast.Name):
+                zdefs.setdefault(n.targets[0].id, []).append(n.value)
+
+        def is_z(e):
+            if _is_stack_elem(e, lv):
+                return True
+            return isinstance(e, ast.Name) and len(zdefs.get(e.id, [])) == 1 and _is_stack_elem(zdefs[e.id][0], lv)
+
+        for n in ast.walk(lp):
+            if not (isinstance(n, ast.Assign) and len(n.targets) == 1 and isinstance(n.targets[0], ast.Name)
+                    and n.targets[0].id in acc):
+                continue
+            a_name = n.targets[0].id
+            v = n.value
+            pair = None
+            if isinstance(v, ast.Call) and call_name(v) in ("dot", "matmul") and len(v.args) == 2 and not v.keywords:
+                pair = v.args
+            elif isinstance(v, ast.BinOp) and isinstance(v.op, ast.MatMult):
+                pair = [v.left, v.right]
+            if pair is None:
+                bad = True
+                continue
+            if is_z(pair[0]) and isinstance(pair[1], ast.Name) and pair[1].id == a_name:
+                ok = True
+            else:
+                bad = True
+    ok = ok and not bad
     run.obligation(rid, "Manager.transform_to_current_basis", ok, key="composition-order",
                    message="stacked transformations must be composed outer-first: SS = ZZ.SS with ZZ "
                            "walking down the stack from the top", loc=f.loc())
